@@ -56,7 +56,9 @@ structure Attr where
   deriving DecidableEq, Repr, FromJson, ToJson, Inhabited
 
 /-- What `_collect_base_attrs*` sees of one class of `cls.__mro__[1:-1]`: whether `__slots__` is in its
-    own `__dict__`, and its *resolved* `__attrs_attrs__` as (name, inherited flag). -/
+    own `__dict__`, and the `__attrs_attrs__` the collector in use reads from it as (name, inherited flag):
+    the class's *own* tuple for `_collect_base_attrs` (empty for a plain class), the *resolved* one
+    (`getattr`) for `_collect_base_attrs_broken`. -/
 structure BaseInfo where
   hasSlotsDunder : Bool
   attrs : List (String × Bool)
